@@ -128,7 +128,7 @@ def row_bcast(n: size, m: size, dst: [R][n, m], v: [R][m]):
 '''
 
 MUTS = ["hi+1", "hi-1", "lo1", "scale2", "swapkind", "extra", "swapops", "const", "alias",
-        "iter", "leq", "negate", "off1", "drop", "op", "transpose"]
+        "iter", "leq", "negate", "off1", "drop", "op"]
 
 
 class Skip(Exception):
@@ -313,6 +313,8 @@ class KGen:
     def build(self):
         L, T, rng = self.L, self.T, self.rng
         n_outer = rng.choice([0, 1, 1, 2])
+        if self.mut == "iter":
+            n_outer = max(n_outer, 1)
         self.outer = [("io", "N"), ("ko", "3")][:n_outer]
         ctrl_vars = [o[0] for o in self.outer]
         # control formals
@@ -353,7 +355,8 @@ class KGen:
             k = len(t.hi)
             exts = [self.ce(h, True) for h in t.hi]
             nm = next(names)
-            if self.mut == "alias" and first_tensor is not None and len(first_tensor[1]) == k and not self.mut_done:
+            if self.mut == "alias" and first_tensor is not None and not self.mut_done and \
+                    len([q for q in first_tensor[1] if q[0] == "iv"]) == k and t.is_window:
                 # a second formal over the same caller buffer, shifted by one
                 self.mut_done = True
                 b0, pat0 = first_tensor
@@ -390,16 +393,6 @@ class KGen:
                     ext = exts[d] if sc == 1 else f"2 * ({exts[d]})"
                     slack = rng.choice(["", "", " + 2"])
                     dims.append(f"{ext} + 2{slack}" if ob == "0" else f"{ob} + {ext} + 2{slack}")
-            if self.mut == "transpose" and k >= 2 and not self.mut_done:
-                # the caller accesses the buffer with two of the formal's dimensions exchanged
-                self.mut_done = True
-                ivs = [j for j, q in enumerate(pat) if q[0] == "iv"]
-                a, b = ivs[0], ivs[1]
-                pa, pb = pat[a], pat[b]
-                pat[a] = ("iv", pb[1], pa[2], pa[3])
-                pat[b] = ("iv", pa[1], pb[2], pb[3])
-                m = max(dims[a], dims[b], key=len)
-                dims[a] = dims[b] = f"{dims[a]} + {dims[b]}"
             self.tens[fa.name] = (nm, pat)
             win = rng.random() < 0.3
             shape = ", ".join(dims)
@@ -974,8 +967,6 @@ def applicable(exo, ir):
         out += ["drop"]
     if len(ranks) >= 2 and len(set(ranks)) < len(ranks):
         out += ["alias"]
-    if any(r >= 2 for r in ranks):
-        out += ["transpose"]
     return out
 
 
@@ -984,6 +975,11 @@ def make_jobs(ctx, exo, cands, names):
     rng = ctx.rng
     app = {c: applicable(exo, cands[c]._loopir_proc) for c in names}
     jobs = [(c, None) for c in names] * ctx.scale(1, 3)
+    # formals of rank 2 are where dimensions can be permuted: more plain instances of those
+    from exo.core.LoopIR import T
+    rank2 = [c for c in names if any(isinstance(a.type, T.Tensor) and len(a.type.hi) >= 2
+                                     for a in cands[c]._loopir_proc.args)]
+    jobs += [(c, None) for c in rank2] * ctx.scale(2, 4)
     k = ctx.scale(2, 8)
     for m in MUTS:
         pool = [c for c in names if m in app[c]]
